@@ -71,12 +71,18 @@ def field_from_prim(model, m, prim):
     return fd.field.fdata(model, m, model.prim2cons(f.data))
 
 
-def max_ulps(a, b, scale):
+def max_ulps(a, b, scale, bits=52):
     a, b = np.asarray(a, dtype=float).ravel(), np.asarray(b, dtype=float).ravel()
     if a.shape != b.shape or not (np.all(np.isfinite(a)) and np.all(np.isfinite(b))):
         return core.ULP_CAP
     d = float(np.max(np.abs(a - b))) if a.size else 0.0
-    return core.ulps(d, 0.0, scale) if d > 0 else 0
+    return core.ulps(d, 0.0, scale, bits) if d > 0 else 0
+
+
+def solver_tok(u40):
+    """a defect measured in units of 2^-40 (solver clause, tolerance 2^24) expressed on the round-off scale the judges
+    compare with TolRoundoff = 2^22: divide by 4, keeping non-finite (capped) values capped"""
+    return u40 if u40 >= core.ULP_CAP else u40 // 4
 
 
 def tok(**kw):
@@ -198,8 +204,12 @@ def cons_solve_cases(rnd, tier):
             if kind not in ("convection", "burgers"):
                 scale = max(scale, sum((F(float(v)) * abs(F(float(x))) for v, x in zip(m.vol(), f0.data[-1])), F(0)))
             if implicit:
-                # the finite-difference Jacobian's columns sum to zero only to round-off / eps: the defect grows with dt
+                # the finite-difference Jacobian's columns sum to zero only to round-off / eps: the defect grows with dt;
+                # measured in solver units (2^-40), expressed on the scale of TolSolver = 2^30: x 2^6
                 scale = scale * F(max(1.0, cfl))
+                u40 = core.ulps(i1, i0, scale if scale > 0 else 1, core.SOLVER_BITS)
+                worst = max(worst, u40 if u40 >= core.ULP_CAP else min(core.ULP_CAP - 1, u40 * 64))
+                continue
             worst = max(worst, core.ulps(i1, i0, scale if scale > 0 else 1))
         recs.append(tok(solve=worst, implicit=1 if implicit else 0, nit=nit, model=kind, flux=str(flux), recon=recon, n=n,
                         integrator=cls, cfl=cfl, bcl=bl, bcr=br))
@@ -245,7 +255,7 @@ def shift_solve_cases_1d(rnd, tier):
             ur = max_ulps(np.roll(Ra[q], k), Rb[q], scr)
             bitequal = bitequal and u == 0 and ur == 0
             if implicit:
-                u = u // 256          # solver clause: TolSolver = 2^30 = 256 * TolRoundoff
+                u = solver_tok(max_ulps(np.roll(a.data[q], k), b.data[q], sc, core.SOLVER_BITS))
             worst = max(worst, u, ur)
         recs.append(tok(shift=worst, model=kind, flux=str(flux), recon=recon, n=n, integrator=cls, biteq=1 if bitequal else 0))
     return recs
@@ -303,6 +313,8 @@ def shift_solve_cases_2d(rnd, tier):
         try:
             model, m, disc = euler2d_problem(rnd, nx, ny, flux, recon, PER2, gamma=rnd.choice([1.4, 5.0 / 3.0]))
             prim = prim2d(rnd, nx, ny)
+            if recon[0] != "e1":      # unlimited high order: keep the extrapolated face states admissible
+                prim = [1.0 + 0.1 * (prim[0] - 1.0), 0.3 * prim[1], 1.0 + 0.1 * (prim[2] - 1.0)]
             f0 = cons2d(model, m, prim)
             f0k = cons2d(model, m, [roll2(p, nx, ny, kx, ky) for p in prim])
             Ra = [np.array(r) for r in disc.rhs(f0)]
@@ -316,8 +328,6 @@ def shift_solve_cases_2d(rnd, tier):
         for q in range(3):
             sc = max(float(np.max(np.abs(a.data[q]))), float(np.max(np.abs(f0.data[q])))) + 1e-300
             u = max_ulps(roll2(a.data[q], nx, ny, kx, ky), b.data[q], sc)
-            if cls == "implicit":
-                u //= 256
             scr = float(np.max(np.abs(Ra[q]))) + 1e-300
             worst = max(worst, u, max_ulps(roll2(Ra[q], nx, ny, kx, ky), Rb[q], scr))
         recs.append(tok2(shift=worst, nx=nx, ny=ny, flux=flux, recon=str(recon), integrator=cls, kx=kx, ky=ky))
@@ -393,4 +403,170 @@ def cons2d_cases(rnd, tier):
             recs.append(rec)
         except Exception as ex:
             recs.append(O.raised_record(ex, nx=nx, ny=ny, flux=flux, recon=str(recon)))
+    return recs
+
+
+# ----------------------------------------------------------------------------- C15: 2D Euler against grid symmetries and 1D
+def _bc2_random(rnd):
+    """boundary tag assignment with matching physical meaning; returns dict tag -> bc dict"""
+    kind = rnd.choice(["per", "sym", "duct_sub_x", "duct_sup_x", "duct_sub_y", "mixed"])
+    per, sym = {"type": "per"}, {"type": "sym"}
+    insub = {"type": "insub", "ptot": 1.4, "rttot": 1.0}
+    outsub = {"type": "outsub", "p": 1.0}
+    insup = {"type": "insup", "ptot": 2.8, "rttot": 1.0, "p": 1.0}
+    if rnd.random() < 0.5:
+        insup = dict(insup, angle=rnd.choice([20.0, -35.0]))
+    outsup = {"type": "outsup"}
+    if kind == "per":
+        return dict(left=per, right=per, bottom=per, top=per)
+    if kind == "sym":
+        return dict(left=sym, right=sym, bottom=sym, top=sym)
+    if kind == "duct_sub_x":
+        return dict(left=insub, right=outsub, bottom=rnd.choice([sym, per]), top=None)
+    if kind == "duct_sup_x":
+        return dict(left=insup, right=outsup, bottom=rnd.choice([sym, per]), top=None)
+    if kind == "duct_sub_y":
+        return dict(bottom=insub, top=outsub, left=rnd.choice([sym, per]), right=None)
+    return dict(left=outsub, right=insub, bottom=outsup, top=insup)
+
+
+def _fix_pairs(bc):
+    for a, b in (("left", "right"), ("bottom", "top")):
+        if bc[b] is None:
+            bc[b] = dict(bc[a])
+        if bc[a] is None:
+            bc[a] = dict(bc[b])
+    return bc
+
+
+def _angle(b, f):
+    if "angle" in b:
+        b = dict(b)
+        b["angle"] = f(b["angle"])
+    return b
+
+
+def rhs2d(model_gamma, nx, ny, lx, ly, flux, recon, bclist, prim):
+    model = fd.euler.euler2d(gamma=model_gamma)
+    m = fd.mesh2d.mesh2d(nx, ny, lx, ly)
+    num = fd.xnum.extrapol2d1() if recon[0] == "e1" else fd.xnum.extrapol2dk(recon[1])
+    disc = fd.modeldisc.fvm2dcart(model, m, num, bclist=bclist, numflux=flux)
+    f = cons2d(model, m, prim)
+    with np.errstate(all="ignore"):
+        R = disc.rhs(f)
+    return [np.array(R[0]), np.array(R[1][0]), np.array(R[1][1]), np.array(R[2])], model, m, disc, f
+
+
+def grid(a, nx, ny):
+    return np.asarray(a).reshape(ny, nx)
+
+
+def flux_scale(gam, rho, u, p, h):
+    """magnitude of a flux difference divided by the cell size: the natural scale of a residual (a residual that vanishes
+    by symmetry must not be judged relative to its own round-off)"""
+    vm = float(np.max(np.abs(u))) + float(np.sqrt(gam * np.max(p) / np.min(rho)))
+    return (float(np.max(rho)) * vm * vm + float(np.max(p))) * vm * (1.0 + 1.0 / (gam - 1.0)) / h
+
+
+def sym2d_cases(rnd, tier):
+    recs = []
+    ncase = 40 if tier == "quick" else 600
+    for c in range(ncase):
+        nx, ny = rnd.choice([(1, 2), (2, 1), (2, 3), (3, 2), (4, 3), (5, 2), (3, 6), (8, 5)])
+        lx, ly = rnd.choice([(1.0, 1.0), (2.0, 0.5), (1.5, 0.7)])
+        flux = rnd.choice(["centered", "hlle"])
+        recon = rnd.choice([("e1", None), ("k", -1.0), ("k", 1.0 / 3.0), ("k", 0.0)])
+        gam = rnd.choice([1.4, 5.0 / 3.0])
+        bc = _fix_pairs(_bc2_random(rnd))
+        n = nx * ny
+        rho = np.array([rnd.uniform(0.9, 1.1) for _ in range(n)])
+        p = np.array([rnd.uniform(0.9, 1.1) for _ in range(n)])
+        u = np.array([[rnd.uniform(0.2, 0.6) for _ in range(n)], [rnd.uniform(-0.2, 0.2) for _ in range(n)]])
+        if any(b["type"] in ("insup", "outsup") for b in bc.values()):
+            u = u * np.array([[3.0], [1.0]]) + np.array([[0.5], [0.0]])
+        try:
+            R, model, m, disc, f = rhs2d(gam, nx, ny, lx, ly, flux, recon, bc, [rho, u, p])
+            sc = [max(float(np.max(np.abs(r))) for r in R) + flux_scale(gam, rho, u, p, min(lx / nx, ly / ny))] * 4
+            # transpose
+            T = lambda a: grid(a, nx, ny).T.reshape(-1)      # noqa: E731
+            bcT = dict(left=_angle(bc["bottom"], lambda a: 90.0 - a), right=_angle(bc["top"], lambda a: 90.0 - a),
+                       bottom=_angle(bc["left"], lambda a: 90.0 - a), top=_angle(bc["right"], lambda a: 90.0 - a))
+            RT, _, _, _, _ = rhs2d(gam, ny, nx, ly, lx, flux, recon, bcT, [T(rho), np.vstack([T(u[1]), T(u[0])]), T(p)])
+            tr = max(max_ulps(RT[0], T(R[0]), sc[0]), max_ulps(RT[1], T(R[2]), sc[0]), max_ulps(RT[2], T(R[1]), sc[0]),
+                     max_ulps(RT[3], T(R[3]), sc[0]))
+            # mirror x
+            X = lambda a: grid(a, nx, ny)[:, ::-1].reshape(-1)      # noqa: E731
+            bcX = dict(left=_angle(bc["right"], lambda a: 180.0 - a), right=_angle(bc["left"], lambda a: 180.0 - a),
+                       bottom=_angle(bc["bottom"], lambda a: 180.0 - a), top=_angle(bc["top"], lambda a: 180.0 - a))
+            RX, _, _, _, _ = rhs2d(gam, nx, ny, lx, ly, flux, recon, bcX, [X(rho), np.vstack([-X(u[0]), X(u[1])]), X(p)])
+            mx = max(max_ulps(RX[0], X(R[0]), sc[0]), max_ulps(RX[1], -X(R[1]), sc[0]), max_ulps(RX[2], X(R[2]), sc[0]),
+                     max_ulps(RX[3], X(R[3]), sc[0]))
+            # mirror y
+            Y = lambda a: grid(a, nx, ny)[::-1, :].reshape(-1)      # noqa: E731
+            bcY = dict(left=_angle(bc["left"], lambda a: -a), right=_angle(bc["right"], lambda a: -a),
+                       bottom=_angle(bc["top"], lambda a: -a), top=_angle(bc["bottom"], lambda a: -a))
+            RY, _, _, _, _ = rhs2d(gam, nx, ny, lx, ly, flux, recon, bcY, [Y(rho), np.vstack([Y(u[0]), -Y(u[1])]), Y(p)])
+            my = max(max_ulps(RY[0], Y(R[0]), sc[0]), max_ulps(RY[1], Y(R[1]), sc[0]), max_ulps(RY[2], -Y(R[2]), sc[0]),
+                     max_ulps(RY[3], Y(R[3]), sc[0]))
+            recs.append(tok2(transpose=tr, mirx=mx, miry=my, nx=nx, ny=ny, flux=flux, recon=str(recon),
+                             bc="/".join(bc[t]["type"] for t in ("left", "right", "bottom", "top")),
+                             angle=1 if any("angle" in b for b in bc.values()) else 0))
+        except Exception as ex:
+            recs.append(O.raised_record(ex, nx=nx, ny=ny, flux=flux, recon=str(recon), bc=str({t: bc[t]["type"] for t in bc})))
+    return recs
+
+
+R1NAME = {("e1", None): "extrapol1", ("k", -1.0): "k-1", ("k", 0.0): "k0", ("k", 1.0 / 3.0): "k1/3", ("k", 1.0): "k1"}
+
+
+def rows2d_cases(rnd, tier):
+    """data that do not vary along y (x), zero transverse velocity: each row (column) of the 2D residual equals the 1D Euler
+    residual with the same flux and the corresponding reconstruction; the transverse momentum residual is exactly zero"""
+    recs = []
+    ncase = 40 if tier == "quick" else 500
+    for c in range(ncase):
+        nline, nother = rnd.choice([(2, 1), (3, 2), (5, 3), (8, 2), (12, 4)])
+        along_x = c % 2 == 0
+        nx, ny = (nline, nother) if along_x else (nother, nline)
+        h = rnd.choice([0.5, 0.25, 0.1])
+        lx, ly = (nline * h, nother * 0.3) if along_x else (nother * 0.3, nline * h)
+        flux = rnd.choice(["centered", "hlle"])
+        recon = rnd.choice([("e1", None), ("k", -1.0), ("k", 1.0 / 3.0), ("k", 0.0), ("k", 1.0)])
+        gam = rnd.choice([1.4, 5.0 / 3.0])
+        kindbc = rnd.choice(["per", "sym", "duct", "sup"])
+        b1 = {"per": ({"type": "per"}, {"type": "per"}), "sym": ({"type": "sym"}, {"type": "sym"}),
+              "duct": ({"type": "insub", "ptot": 1.4, "rttot": 1.0}, {"type": "outsub", "p": 1.0}),
+              "sup": ({"type": "insup", "ptot": 2.8, "rttot": 1.0, "p": 1.0}, {"type": "outsup"})}[kindbc]
+        side = rnd.choice([{"type": "per"}, {"type": "sym"}])
+        rho1 = np.array([rnd.uniform(0.9, 1.1) for _ in range(nline)])
+        p1 = np.array([rnd.uniform(0.9, 1.1) for _ in range(nline)])
+        u1 = np.array([rnd.uniform(0.2, 0.6) for _ in range(nline)]) * (3.5 if kindbc == "sup" else 1.0)
+        try:
+            if along_x:
+                bc = dict(left=b1[0], right=b1[1], bottom=side, top=side)
+                rho, p, un = np.tile(rho1, ny), np.tile(p1, ny), np.tile(u1, ny)
+                u = np.vstack([un, np.zeros(nx * ny)])
+            else:
+                bc = dict(bottom=b1[0], top=b1[1], left=side, right=side)
+                rho, p, un = np.repeat(rho1, nx), np.repeat(p1, nx), np.repeat(u1, nx)
+                u = np.vstack([np.zeros(nx * ny), un])
+            R, _, _, _, _ = rhs2d(gam, nx, ny, lx, ly, flux, recon, bc, [rho, u, p])
+            # 1D twin
+            m1 = fd.uniform(nline, length=nline * h)
+            mod1 = fd.euler.euler1d(gamma=gam)
+            d1 = fd.modeldisc.fvm(mod1, m1, fd.recon(R1NAME[recon]), numflux=flux, bcL=b1[0], bcR=b1[1])
+            f1 = field_from_prim(mod1, m1, [rho1, u1, p1])
+            with np.errstate(all="ignore"):
+                R1 = [np.array(r) for r in d1.rhs(f1)]
+            sc = max(float(np.max(np.abs(r))) for r in R1) + flux_scale(gam, rho1, u1, p1, h)
+            worst = 0
+            G = [grid(r, nx, ny) for r in R]
+            normal, transverse = (G[1], G[2]) if along_x else (G[2], G[1])
+            for j in range(nother):
+                line = (lambda g: g[j, :]) if along_x else (lambda g: g[:, j])      # noqa: E731
+                worst = max(worst, max_ulps(line(G[0]), R1[0], sc), max_ulps(line(normal), R1[1], sc), max_ulps(line(G[3]), R1[2], sc))
+            recs.append(tok2(rows=worst, transverse=int(np.sum(transverse != 0.0)), nx=nx, ny=ny, flux=flux, recon=str(recon),
+                             bc=kindbc + "/" + side["type"], along="x" if along_x else "y"))
+        except Exception as ex:
+            recs.append(O.raised_record(ex, nx=nx, ny=ny, flux=flux, recon=str(recon), bc=kindbc))
     return recs
